@@ -10,13 +10,24 @@ class TranslateError(Exception):
     pass
 
 
+# what the function translators covered in this process (read by tools/inventory.py):
+#   ("translated", sha(src), fn node) / ("pinned", sha(src), fn name, impl_of) / ("hashed", sha(fragment))
+REGISTRY = []
+
+
+def _sha(text):
+    return hashlib.sha256(text.encode()).hexdigest()[:16]
+
+
 def token_hash(src_fragment):
+    REGISTRY.append(("hashed", _sha(src_fragment), src_fragment))
     toks = [t.text for t in tokenize(src_fragment) if t.kind != "eof"]
     return hashlib.sha256("\x00".join(toks).encode()).hexdigest()[:16]
 
 
 def fn_source(src, fn_name, impl_of=None):
     """source text of one function (for opaque pins): located by token scan"""
+    REGISTRY.append(("pinned", _sha(src), fn_name, impl_of))
     toks = tokenize(src)
     # find `fn <name>` ; when impl_of is given it must lie inside `impl ... <impl_of> ... {`
     hits = []
@@ -114,6 +125,7 @@ def translate(src, vocab, targets, header, requires, shapes=None):
         except EmitError as e:
             raise TranslateError("%s%s: %s" % ((impl_of + "::") if impl_of else "", fname, e))
         key = opts.get("key") or ((impl_of + "::" if impl_of else "") + fname)
+        REGISTRY.append(("translated", _sha(src), fn, coq_name))
         em.fn_shapes[key] = shape
         out.append("(* %s *)" % key)
         out.append(text)
